@@ -300,6 +300,125 @@ Proof.
     + split; simpl; [rewrite Ekr; reflexivity|reflexivity].
 Qed.
 
+(* ------------------------------------------------------------------------------------------------ *)
+(* F6: the node-level step for the NEW separator choice: the first separator is only ever lowered   *)
+(* (sep' = key if index = 0 and key < sep, else sep); no reference to the child's smallest key.      *)
+(* ------------------------------------------------------------------------------------------------ *)
+Definition new_sep2 (k : K) (index : nat) (s : K) : K :=
+  if index =? 0 then (if ltb k s then k else s) else s.
+
+Section Child2.
+Variables (order : nat) (b : option K * option K) (d : nat) (pre post : list (K * tree)) (s : K) (c : tree) (k : K).
+Hypothesis Hok : sub_ok order b (S d) (Node (pre ++ (s, c) :: post)).
+Hypothesis Hk : rng b k.
+Hypothesis Hidx : 0 < length pre -> ltb k s = false.
+Hypothesis Hpost : Forall (fun e : K * tree => ltb k (fst e) = true) post.
+Variable sep' : K.
+Hypothesis Hsep : new_sep2 k (length pre) s = sep'.
+
+Let hi' := hi_of post (snd b).
+
+Lemma child_facts2 :
+  sub_ok order (Some s, hi') d c /\ rng b s /\ (pre = [] \/ sep' = s) /\
+  ltb k sep' = false /\ lt_hi ltb k hi' = true /\
+  Forall (fun x => ltb x sep' = false) (allkeys c) /\
+  rng (fst b, hi') sep' /\
+  Forall (rng (fst b, hi')) (allkeys c) /\
+  (forall sm, smallest c = Ok sm -> ltb sm sep' = false).
+Proof.
+  destruct (frame_down K V ltb HS order b (S d) pre s c post Hok) as (d' & Ed & Hc & Hrs & Hss & Hs').
+  inversion Ed; subst d'. fold hi' in Hc.
+  pose proof (frame_sep_hi order b (S d) pre s c post Hok) as Hshi. fold hi' in Hshi.
+  destruct Hc as (Hco & Hcr & Hcb & Hcc).
+  assert (Hcs : Forall (fun x => ltb x s = false) (allkeys c)).
+  { eapply Forall_impl; [|exact Hcr]. intros x [Hx _]. simpl in Hx. apply negb_true_iff in Hx. exact Hx. }
+  assert (Hkhi : lt_hi ltb k hi' = true).
+  { subst hi'. destruct post as [|[s' c'] post']; [apply Hk|]. cbn [hi_of lt_hi]. inversion Hpost; assumption. }
+  assert (Hcrng : Forall (rng (fst b, hi')) (allkeys c)).
+  { eapply Forall_impl; [|exact Hcr]. intros x [Hx1 Hx2]. cbn [fst snd] in *. split; [|exact Hx2].
+    simpl in Hx1. apply negb_true_iff in Hx1. eapply (ge_lo_trans K ltb HS); [exact Hx1|apply Hrs]. }
+  split; [repeat split; assumption|]. split; [exact Hrs|].
+  unfold new_sep2 in Hsep. destruct (length pre =? 0) eqn:E.
+  - apply Nat.eqb_eq in E. destruct pre; [|discriminate].
+    split; [now left|].
+    destruct (ltb k s) eqn:Ek; subst sep'.
+    + split; [apply irrefl|]. split; [exact Hkhi|]. split; [|split; [|split]].
+      * eapply Forall_impl; [|exact Hcs]. intros x Hx. cbn beta in Hx.
+        destruct (ltb x k) eqn:Exk; auto. rewrite (trans _ _ _ Exk Ek) in Hx. discriminate.
+      * split; [apply Hk|exact Hkhi].
+      * exact Hcrng.
+      * intros sm' E'. pose proof (smallest_in K V c sm' E') as Hin.
+        rewrite Forall_forall in Hcs. specialize (Hcs sm' Hin).
+        destruct (ltb sm' k) eqn:Exk; auto. rewrite (trans _ _ _ Exk Ek) in Hcs. discriminate.
+    + split; [exact Ek|]. split; [exact Hkhi|]. split; [exact Hcs|]. split; [|split].
+      * split; [apply Hrs|exact Hshi].
+      * exact Hcrng.
+      * intros sm' E'. rewrite Forall_forall in Hcs. apply Hcs. now apply (smallest_in K V).
+  - apply Nat.eqb_neq in E. subst sep'.
+    split; [now right|]. split; [apply Hidx; lia|]. split; [exact Hkhi|]. split; [exact Hcs|]. split; [|split].
+    + split; [apply Hrs|exact Hshi].
+    + exact Hcrng.
+    + intros sm' E'. rewrite Forall_forall in Hcs. apply Hcs. now apply (smallest_in K V).
+Qed.
+
+(* no split: only the separator may change *)
+Lemma child_nosplit2 :
+  sub_ok order b (S d) (Node (pre ++ (sep', c) :: post)) /\ rng (Some sep', hi') k.
+Proof.
+  destruct child_facts2 as (Hc & Hrs & Hp & Hks & Hkhi & Hcs & Hsr & Hcr & _).
+  destruct Hc as (Hco & _ & Hcb & Hcc).
+  split; [|split; [simpl; rewrite Hks; reflexivity|exact Hkhi]].
+  apply (node_replace K V ltb HS order b d pre s c post sep' c []); auto.
+  - repeat constructor.
+  - simpl. split; [exact Hcs|tauto].
+  - simpl. tauto.
+  - simpl. tauto.
+  - simpl. tauto.
+  - cbn [flat_map fst snd]. rewrite app_nil_r. constructor; assumption.
+  - destruct Hok as (_ & _ & _ & Hcap). apply (cap_node K V) in Hcap. destruct Hcap as [Hl _].
+    clear - Hl. cbn [count] in Hl. rewrite !app_length in *. cbn [length app] in *. lia.
+Qed.
+
+(* split: the right half becomes the next entry *)
+Lemma child_split2 l r rs :
+  2 <= order -> Nat.even order = true -> length (pre ++ (s, c) :: post) < order ->
+  maybe_split order c = Some (l, r) -> smallest r = Ok rs ->
+  sub_ok order b (S d) (Node (pre ++ (sep', l) :: (rs, r) :: post)) /\
+  count l < order /\ count r < order /\
+  (if ltb k rs then rng (Some sep', Some rs) k else rng (Some rs, hi') k).
+Proof.
+  intros H2 Hev Hlen Hm Hrs.
+  destruct child_facts2 as (Hc & Hrss & Hp & Hks & Hkhi & Hcs & Hsr & Hcr & Hsm).
+  assert (Hc' : sub_ok order (fst b, hi') d c).
+  { destruct Hc as (A1 & _ & A3 & A4). repeat split; assumption. }
+  destruct (split_ok order _ d c l r H2 Hev Hm Hc')
+    as (Hl & Hr & Cl & Cr & Hh1 & Hh2 & Esm & Hak & [ls Els] & (rs' & Ers & Hlrs & Hrrs & Hrsr)).
+  rewrite Hrs in Ers. inversion Ers; subst rs'; clear Ers.
+  destruct Hl as (Hlo & Hlr & Hlb & Hlc). destruct Hr as (Hro & Hrr & Hrb & Hrc).
+  rewrite Hak in Hcs. apply Forall_app in Hcs. destruct Hcs as [Hcsl Hcsr].
+  assert (Hseprs : ltb sep' rs = true).
+  { rewrite Esm in Els. pose proof (Hsm ls Els) as H1. rewrite <- Esm in Els.
+    pose proof (smallest_in K V l ls Els) as Hin. rewrite Forall_forall in Hlrs. specialize (Hlrs ls Hin).
+    eapply lelt; eauto. }
+  split; [|split; [lia|split; [lia|]]].
+  - change (pre ++ (sep', l) :: (rs, r) :: post) with (pre ++ ((sep', l) :: [(rs, r)]) ++ post).
+    apply (node_replace K V ltb HS order b d pre s c post sep' l [(rs, r)]); auto.
+    + cbn [map fst]. repeat constructor. exact Hseprs.
+    + cbn [seps_ok]. split; [exact Hcsl|]. split; [exact Hlrs|]. split; [exact Hrrs|tauto].
+    + simpl. tauto.
+    + simpl. tauto.
+    + simpl. tauto.
+    + cbn [flat_map fst snd]. rewrite app_nil_r. constructor; [exact Hsr|].
+      apply Forall_app. split; [exact Hlr|]. constructor; [exact Hrsr|exact Hrr].
+    + clear - Hlen. rewrite !app_length in *. cbn [length app] in *. lia.
+  - destruct (ltb k rs) eqn:Ekr.
+    + split; simpl; [rewrite Hks; reflexivity|exact Ekr].
+    + split; [simpl; rewrite Ekr; reflexivity|exact Hkhi].
+Qed.
+
+End Child2.
+
 End Local.
 
 Arguments new_sep {K} ltb k index s sm.
+Arguments new_sep2 {K} ltb k index s.
